@@ -107,7 +107,9 @@ pub fn para_xml(p: &str, mode: SpaceMode, span: bool) -> String {
             let mut j = i;
             while j < chars.len() && chars[j] != ' ' { j += 1; }
             let t: String = chars[i..j].iter().collect();
-            if span { o.push_str(&format!("<text:span>{}</text:span>", esc_text(&t))); } else { o.push_str(&esc_text(&t)); }
+            // a tab is written as the text:tab element (ODF 1.2 part 1, 6.1.4): a literal tab would be collapsed white space
+            let enc = |t: &str| esc_text(t).replace('\t', "<text:tab/>");
+            if span { o.push_str(&format!("<text:span>{}</text:span>", enc(&t))); } else { o.push_str(&enc(&t)); }
             i = j;
         }
     }
